@@ -65,7 +65,7 @@ def ssh_model_call(c):
     if c['look_for_keys']: loads += [load_ok(p, c['password']) for p in c['default_keys']]
     cfg = [c['verify'], kh, pin, c['user_cb'], c['profile'] in OVERRIDE, len(c['key_files']), c['allow_agent'], c['look_for_keys'],
            c['password'], [s.encode() for s in subsystems_of(c['profile'])], c['profile'] in EXEC_FALLBACK]
-    orc = [c['kex_ok'], list(KEYCODE[c['server_key']]), c['cb_verdict'], loads, c['agent_keys'], len(c['default_keys']),
+    orc = [c['kex_ok'], list(KEYCODE[c['server_key']]), bool(c['cb_verdict']), loads, c['agent_keys'], len(c['default_keys']),
            list(c['auths']), list(c['opens']), list(c['subs']), c['hello_ok']]
     return [1, cfg, orc]
 
@@ -136,7 +136,7 @@ KH_LAYOUTS = [None, [], [('host', 'E1')], [('hostport', 'E1')], [('host', 'E2')]
               [('host', 'E1'), ('hostport', 'E2')], [('host', 'E2'), ('hostport', 'E1')], [('host', 'R1'), ('hostport', 'E1')],
               [('host', 'E2'), ('host', 'E1')], [('hostport', 'E2'), ('hostport', 'E1')], [('other', 'E2'), ('hostport', 'R1'), ('host', 'E1')]]
 PINS = [None, 'bad', 'E1', 'E2', 'R1']
-CALLBACKS = [(False, False), (True, True), (True, False)]
+CALLBACKS = [(False, False), (True, True), (True, False), (True, None), (True, 0), (True, ''), (True, 1), (True, 'yes')]   # verdicts by truthiness
 SIMPLE_CREDS = [dict(password=True, auths=[True]), dict(password=True, auths=[False]), dict(password=False, auths=[])]
 
 def hostkey_grid(profs):
